@@ -1029,6 +1029,30 @@ pub fn run(tier: &str) -> i32 {
         );
     }
     rep.floor("headers_on_a_retained_header_of_a_discarded_fork", 5);
+    // base states reached through time-sliced ingestion (the stable header of a block ingested
+    // in several rounds is part of what later validations walk over): valid children must
+    // still be admitted, invalid ones rejected
+    for (theta, n) in if quick { vec![(1u32, 3usize)] } else { vec![(1, 4), (2, 4)] } {
+        let mut base = Alphabet::tree(n, &[1]);
+        base.bodies = vec![crate::chain::BODY_CB, crate::chain::BODY_MULTI];
+        base.max_special = 2;
+        base.budgets = vec![0, 1];
+        let m = C10Model {
+            cfg: WorldCfg::regtest(theta),
+            base,
+            item_kinds: vec![K_CHILD_OF_TIP, K_CHILD_OF_PREVIOUS, K_TIME_JUST_ABOVE_MEDIAN, K_TIME_OLD, K_BAD_POW, K_WRONG_BITS],
+            max_items: 2,
+            hdr_kinds: vec![H_VALID, H_CHAINED],
+            max_hdrs: 2,
+            max_resps: 1,
+        };
+        let e = explore(&m, &Limits::new(2, if quick { 300 } else { 6000 }));
+        rep.absorb(
+            &format!("TREE sliced n={} theta={} budgets=[unlimited,1] x replies (time and target rules that walk over stable headers)", n, theta),
+            e,
+            json!({"threshold": theta, "base_blocks": n, "ingestion_budgets": [0, 1]}),
+        );
+    }
     // channel equivalence: the direct channel used by the other properties and the
     // heartbeat channel give the same state
     channel_equivalence(&mut rep, if quick { 3 } else { 4 });
